@@ -143,6 +143,7 @@ def extract_consts(repo: Path):
         if m:
             terms[m.group(1)] = (m.group(2) or '') + '|' + ' '.join(m.group(3).split())
     out['terminals'] = terms
+    out['ignored'] = re.findall(r'^%ignore\s+(\w+)', (repo / 'autobean_refactor/beancount.lark').read_text(), re.M)
     # editor: newline modes and the makedirs guard
     src = (repo / 'autobean_refactor/editor.py').read_text()
     edt = ast.parse(src)
@@ -183,6 +184,7 @@ def emit_consts(c) -> str:
          'def escapeMap : List (String × String) := ' + llist(c['escape_map'], lambda kv: f'({lstr(kv[0])}, {lstr(kv[1])})'),
          'def escapePatterns : List (String × String) := ' + llist(sorted(c['escape_patterns'].items()), lambda kv: f'({lstr(kv[0])}, {lstr(kv[1])})'),
          'def terminals : List (String × String) := ' + llist(sorted(c['terminals'].items()), lambda kv: f'({lstr(kv[0])}, {lstr(kv[1])})'),
+         'def ignoredTerminals : List String := ' + llist(c['ignored'], lstr),
          'def editorOpens : List (String × String × String) := ' + llist(c['editor_opens'], lambda t: f'({lstr(t[0])}, {lstr(t[1])}, {lstr(t[2])})'),
          f'def editorMakedirsGuarded : Bool := {"true" if c["editor_makedirs_guarded"] else "false"}',
          '', 'end Autobean.Generated', '']
@@ -352,7 +354,9 @@ def extract_class(cls: ast.ClassDef, defaults, mixin_fields, fname):
                                 continue
                             m = re.match(r'(\w+)\.from_default\(\)$', s)
                             if m:
-                                info['from_children'].append('S:' + m.group(1))
+                                if m.group(1) not in defaults:
+                                    ERRORS.append(f'{where}.from_children: no DEFAULT known for {m.group(1)}')
+                                info['from_children'].append('S:' + m.group(1) + '=' + str(defaults.get(m.group(1), '')))
                                 continue
                             ERRORS.append(f'{where}.from_children: unreadable token element {s}')
                     elif isinstance(b, ast.Expr):
